@@ -13,6 +13,7 @@ import (
 	"sync"
 	"sync/atomic"
 
+	"github.com/hedzr/is"
 	"github.com/hedzr/logg/slog"
 	errorsv3 "gopkg.in/hedzr/errors.v3"
 
@@ -185,6 +186,29 @@ func c08stress(c *Ctx) {
 			add(lgs[i].own)
 			expKeys[i] = ks
 		}
+		// before the load: Panic-level calls that really panicked and were recovered by the application (a server with a
+		// recover middleware); and some logger of the process was put at Debug level (the process-wide debug mode is on)
+		panicsBefore := idx%3 == 2 // by case index: every tier and seed has such runs, with and without the race detector
+		if panicsBefore {
+			slog.RemoveFlags(slog.LnoInterrupt)
+			for i := 0; i < 32; i++ {
+				if i%nLog == fileLogger {
+					continue // (what that logger writes is read back from its file after the load)
+				}
+				func() {
+					defer func() { _ = recover() }()
+					lgs[i%nLog].e.Panic("a Panic-level call the application recovers from, before the load", "k", i)
+				}()
+			}
+			c.R.Add("runs_after_32_recovered_panic_level_calls", 1)
+		}
+		ownDebugLoggers := idx%3 == 1
+		if ownDebugLoggers {
+			slog.New("debug-before-the-load").SetLevel(slog.DebugLevel)
+			defer is.SetDebugMode(false)
+			c.R.Add("runs_in_which_goroutines_build_debug_level_loggers_of_their_own", 1)
+		}
+		log.Reset()
 		spyMu := &sync.Mutex{}
 		spyM := map[string]map[int]bool{}
 		var calls, ctxCalls int64
@@ -206,6 +230,10 @@ func c08stress(c *Ctx) {
 					li := gr.Intn(nLog)
 					l := lgs[li].e
 					id := fmt.Sprintf("g%dk%d", g, k)
+					if ownDebugLoggers && k%97 == 5 {
+						// a logger of this goroutine's own, at Debug level (the process-wide mode is on already)
+						slog.New(fmt.Sprintf("own-%d-%d", g, k)).SetLevel(slog.DebugLevel)
+					}
 					withCtx := useCtx && gr.Bool()
 					ctx, pa, pn := bg, "m-", "n-"
 					if withCtx {
@@ -247,9 +275,13 @@ func c08stress(c *Ctx) {
 								msg += fmt.Sprintf("\nl%d-%s", x+3, id)
 							}
 						}
-						if gr.Bool() && !withCtx {
+						switch {
+						case !withCtx && gr.P(40):
 							l.Info(msg)
-						} else {
+						case !withCtx && gr.P(50):
+							// a printf-style verb (the message is the formatted text)
+							_ = l.Warnf("%s%s", msg[:2], msg[2:])
+						default:
 							l.WarnContext(ctx, msg)
 						}
 						mine[li] = append(mine[li], id)
